@@ -109,15 +109,10 @@ where
         use crate::util::Consume;
 
         tokio::select! {
-            tag = self.flow_state.consume(1) => {
-                // link-credit is defined as
-                // "The current maximum number of messages that can be handled
-                // at the receiver endpoint of the link"
+            // A detach that has already arrived must be answered before anything else is sent on
+            // the link, even if credit is available at the same time
+            biased;
 
-                // Draining should already set the link credit to 0, causing
-                // sender to wait for new link credit
-                Ok(tag)
-            },
             frame = detached => { // cancel safe
                 match frame {
                     // If remote has detached the link
@@ -152,6 +147,15 @@ where
                         }
                     }
                 }
+            },
+            tag = self.flow_state.consume(1) => {
+                // link-credit is defined as
+                // "The current maximum number of messages that can be handled
+                // at the receiver endpoint of the link"
+
+                // Draining should already set the link credit to 0, causing
+                // sender to wait for new link credit
+                Ok(tag)
             }
         }
     }
